@@ -55,6 +55,8 @@ type FuncContract struct {
 	Alias    string
 	Havoc    []string
 	Ghost    []GhostVar
+	Sweep     bool     // synthesised by a zero-annotation no-panic sweep
+	UnboxNonNil bool   // assumption: pointers extracted from interface values are non-nil
 	ModExcept []string // "modifies everything except T1, T2": type texts
 	Preserves []string // types whose heaps uncontracted calls in this function never modify (assumption)
 	used     bool
@@ -88,7 +90,16 @@ type GlobalInv struct {
 	Clause  Clause
 }
 
+type Sweep struct {
+	UnboxNonNil bool
+	PkgPath string
+	Props   []string
+	Files   []string
+	Src     string
+}
+
 type ContractDB struct {
+	Sweeps     []Sweep
 	GlobalInvs []GlobalInv
 	Funcs map[string]*FuncContract // key: pkgpath + " " + Key   (assumed: Key only, fully qualified)
 	Preds map[string]*Pred         // pkgpath + " " + name
@@ -101,7 +112,7 @@ var clauseKeywords = map[string]bool{"func": true, "iface": true, "requires": tr
 	"nopanic": true, "inline": true, "pure": true, "panics": true, "loop": true, "prop": true, "pred": true,
 	"uf": true, "at": true, "assumed": true, "trusted": true, "expect": true, "math": true, "fresh": true,
 	"axiom": true, "ghost": true, "havoc": true, "alias": true, "end": true,
-	"ghostfield": true, "define": true, "view": true, "ghostscalar": true, "deterministic": true, "globalinv": true, "preserves": true}
+	"ghostfield": true, "define": true, "view": true, "ghostscalar": true, "deterministic": true, "globalinv": true, "preserves": true, "sweep": true, "unboxnonnil": true}
 
 var labelRe = regexp.MustCompile(`^(requires|ensures|invariant)\[([A-Za-z0-9_.:-]+)\]`)
 
@@ -213,6 +224,26 @@ func (db *ContractDB) parseContractFile(path, pkgPath string, prefix string, ass
 		case "ghostfield", "view", "ghostscalar":
 			cur = nil
 			curUF = nil
+		case "sweep":
+			// sweep C07, C08 : file.go file.go
+			cur = nil
+			curUF = nil
+			parts := strings.SplitN(rest, ":", 2)
+			if len(parts) != 2 {
+				return fmt.Errorf("%s: sweep <props> : <files>", src)
+			}
+			sw := Sweep{PkgPath: pkgPath, Src: src}
+			for _, f := range strings.Fields(parts[1]) {
+				if f == "+unboxnonnil" {
+					sw.UnboxNonNil = true
+				} else {
+					sw.Files = append(sw.Files, f)
+				}
+			}
+			for _, p := range splitTop(parts[0], ',') {
+				sw.Props = append(sw.Props, strings.TrimSpace(p))
+			}
+			db.Sweeps = append(db.Sweeps, sw)
 		case "globalinv":
 			cur = nil
 			curUF = nil
@@ -246,6 +277,8 @@ func (db *ContractDB) parseContractFile(path, pkgPath string, prefix string, ass
 				cur.Havoc = append(cur.Havoc, splitTop(rest, ',')...)
 			case "preserves":
 				cur.Preserves = append(cur.Preserves, splitTop(rest, ',')...)
+			case "unboxnonnil":
+				cur.UnboxNonNil = true
 			case "nopanic":
 				cur.NoPanic = true
 			case "inline":
@@ -280,11 +313,11 @@ func (db *ContractDB) parseContractFile(path, pkgPath string, prefix string, ass
 				// ghost var name type = init
 				r := strings.TrimSpace(strings.TrimPrefix(rest, "var"))
 				parts := strings.SplitN(r, "=", 2)
-				nt := strings.Fields(parts[0])
+				nt := strings.SplitN(strings.TrimSpace(parts[0]), " ", 2)
 				if len(nt) != 2 {
 					return fmt.Errorf("%s: bad ghost var", src)
 				}
-				g := GhostVar{Name: nt[0], Type: nt[1]}
+				g := GhostVar{Name: nt[0], Type: strings.TrimSpace(nt[1])}
 				if len(parts) == 2 {
 					g.Init = strings.TrimSpace(parts[1])
 				}
